@@ -157,8 +157,8 @@ def c13(ck):
     if ck.violations:
         return
     ck.exhaustive = ck.tier == "thorough"
-    ck.trace("big", "big", [], "TraceCodec", "TraceCodec.cfg", ["InvBig"],
-             nontrivial=lambda e: e.get("n", 0) >= 31)
+    ck.trace("big", "big", [], "TraceCodec", "TraceCodec.cfg", ["InvBig", "InvSeq"],
+             nontrivial=lambda e: e.get("n", 0) >= 31 or e.get("ev") == "bigseq")
     if ck.violations:
         return
     # element counts around 255|256 with random values, through the ordinary round-trip events
@@ -514,7 +514,8 @@ def c19(ck):
             "has no synchronisation that could order the accesses) and the worker's exit status are instruments; the footprints are the model's "
             "assumption about the code, checked by the detector")
 def c17(ck):
-    ck.rule.append("all multisets of 2..3 applicable (operation, shared object) calls x 4 (quick) / 25 (thorough) rounds; non-trivial = every "
+    ck.rule.append("all multisets of 2..3 applicable (operation, shared object) calls x 4 (quick) / 25 (thorough) rounds on objects nothing has "
+                   "touched before, plus one configuration per multiset of operations as the first calls of a fresh process; non-trivial = every "
                    "configuration; distinct by the multiset of calls")
     r = ck.model("MCConcurrency", "MCConcurrency", "MCConcurrency.cfg", timeout=600)
     seen, cases = set(), []
@@ -530,4 +531,11 @@ def c17(ck):
     ev = ck.trace("conc", "conc", ["-in", table, "-n", q(ck, 4, 25)], "TraceConc", "TraceConc.cfg", ["InvC17"], worker=True, race=True,
                   nontrivial=lambda e: e.get("ev") == "conc", key=lambda e: json.dumps([e.get("ev"), e.get("calls")]))
     ck.replayed += len(cases)
+    if ck.violations:
+        return
+    # the same, as the very first calls a process makes into the library (state initialised on first use)
+    ev = ck.trace("cold", "conc-cold", ["-in", table, "-n", q(ck, 3, 10)], "TraceConc", "TraceConc.cfg", ["InvC17"], worker=True, race=True,
+                  nontrivial=lambda e: e.get("ev") == "conc", key=lambda e: json.dumps([e.get("ev"), e.get("calls"), "cold"]))
+    ck.extra["cold_start"] = "%d configurations (one per multiset of operations%s), each in a process of its own, %d attempts" % (
+        len(ev), "" if ck.tier == "thorough" else ", pairs", q(ck, 3, 10))
     ck.assumptions += ["one execution per configuration and round; schedules are not controlled (the detector does not need them to be)"]
